@@ -240,9 +240,12 @@ def run_injection(ctx, case, zy=None) -> tuple[dict, dict]:
         rep = inproc(spec, env)
     else:
         r = zy.run({**spec, "env": env})
-        if r["hang"] or r["report"] is None:
-            raise core.Infra(f"C35: async case did not finish: {case} {r}")
-        rep = r["report"]
+        if r["hang"]:
+            rep = {"outcome": "hang", "cwd": "other", "msg": f"no return within {jp.WATCHDOG:.0f} s"}
+        elif r["report"] is None:
+            raise core.Infra(f"C35: async case ended without a report: {case} {r}")
+        else:
+            rep = r["report"]
     obs = observe_case(spec, rep)
     obs["exc"] = rep["outcome"]
     shutil.rmtree(b, ignore_errors=True)
